@@ -513,6 +513,7 @@ func checkC13(c *Ctx) {
 	// ---- D2
 	c.c13Commit(m)
 	c.c13SameMailbox(m)
+	c.c13FreshList()
 	// ---- D3
 	c.c13Marks(m, decs)
 	// ---- D4 / D6
@@ -2081,4 +2082,47 @@ func (m *pop3Model) sendLike(g *ssa.Function) bool {
 		}
 	})
 	return calls
+}
+
+// c13FreshList: the snapshot a POP3 session takes at login is its own. Every store's
+// GetMessages hands out a slice built for that call (made, or appended to from empty), never the
+// container the store itself keeps and edits: a later removal that compacts the store's list in
+// place would otherwise shift the message numbers under a session in TRANSACTION state.
+func (c *Ctx) c13FreshList() {
+	r, p := c.R, c.P
+	rule := "C13/SNAPSHOT/fresh-list"
+	r.Rule(rule, "every Store implementer's GetMessages returns a slice created for that call (not a container the store keeps)")
+	stT := p.Named("pkg/storage", "Store")
+	if stT == nil {
+		return
+	}
+	iface, ok := stT.Underlying().(*types.Interface)
+	if !ok {
+		return
+	}
+	n := 0
+	for _, T := range p.Implementers(iface, false) {
+		fn := p.MethodOf(T, "GetMessages")
+		if fn == nil || len(fn.Blocks) == 0 {
+			continue
+		}
+		n++
+		cons := eng.ShortType(T) + ".GetMessages"
+		bad := ""
+		for _, ret := range successReturns(fn) {
+			res := eng.ReturnResults(ret)
+			if len(res) == 0 {
+				continue
+			}
+			if okF, why := c.freshSlice(res[0], 0); !okF {
+				bad = why
+			}
+		}
+		if bad != "" {
+			r.Bad(rule, cons, p.Pos(fn.Pos()), "GetMessages hands out %s: the POP3 session's snapshot shares its backing array with the store, so a removal by another actor renumbers (and a QUIT then deletes) other messages than the session marked", bad)
+		} else {
+			r.Ok(rule, cons, p.Pos(fn.Pos()), "the returned list is created for the call")
+		}
+	}
+	r.Floor(rule, "Store implementers", n, 2)
 }
